@@ -12,12 +12,20 @@ ASSUMPTIONS = ["substituted-key theorem holds up to an explicit HMAC collision e
 def substituted(ctx, idu, ids, context, variant):
     ctx.nontrivial = True
     L = ctx.L
-    f = honest_flow(ctx, b"hunter2", b"alice", context, idu, ids, "~", stop_on_error=False, count=True)
+    # server identities that LOOK like a key: "@spk" = the genuine server's public key spelled out explicitly,
+    # "@npk" = an arbitrary string of exactly the public-key length
+    r = ctx.call("setup_new", ctx.tape(2 * L.Nsk + L.Nh + 16))
+    setup0 = r.b(0)
+    r = ctx.call("ke_pub", setup0[L.Nh:L.Nh + L.Nsk])
+    pk = r.b(0) if r.ok else None
+    if ids == b"@spk":
+        ids = pk
+    elif ids == b"@npk":
+        ids = b"\xff" * L.Npk
+    f = honest_flow(ctx, b"hunter2", b"alice", context, idu, ids, "~", stop_on_error=False, count=True, setup=setup0)
     ctx.expect(f.ok, "honest login under the genuine setup succeeds")
     if not f.ok:
         return
-    r = ctx.call("ke_pub", f.setup[L.Nh:L.Nh + L.Nsk])
-    pk = r.b(0) if r.ok else None
     ctx.expect(f.spk_reg == pk and f.spk_login == pk and f.reg_response[L.Noe:] == pk,
                "server public key reported at registration and login is the setup's public key")
     other = honest_flow(ctx, b"x", b"y", registration_only=True)
@@ -76,7 +84,8 @@ def tag_in_full(ctx, idu, ids, context, positions):
 def cases(tier, seed):
     out = []
     # all four shapes of (client identity, server identity) in {absent, explicit}^2
-    idv = [(None, None, None), (b"u", b"s", b"c"), (None, b"server.example", None), (b"u" * 300, None, b"")]
+    idv = [(None, None, None), (b"u", b"s", b"c"), (None, b"server.example", None), (b"u" * 300, None, b""),
+           (b"client", b"@spk", None), (b"client", b"@npk", b"c"), (None, b"@spk", None)]
     for si, s in enumerate(suites_for(tier, seed)):
         k = 0
         for v in ("fresh-key", "other-servers-key", "fake-key"):
